@@ -123,7 +123,14 @@ func (a *Allocation) AddPermission(perms *Permission) {
 func (a *Allocation) RemovePermission(addr net.Addr) {
 	a.permissionsLock.Lock()
 	defer a.permissionsLock.Unlock()
-	delete(a.permissions, ipnet.FingerprintAddr(addr))
+
+	// An expiry timer that fired while Close (or another removal) was already taking the
+	// permission away arrives here second: there is nothing left to delete or to report.
+	fingerprint := ipnet.FingerprintAddr(addr)
+	if _, ok := a.permissions[fingerprint]; !ok {
+		return
+	}
+	delete(a.permissions, fingerprint)
 
 	if a.eventHandler.OnPermissionDeleted != nil {
 		if u, ok := addr.(*net.UDPAddr); ok {
